@@ -5,7 +5,11 @@ import (
 	"encoding/json"
 	"fmt"
 	"hash/fnv"
+	"math"
+	"math/big"
 	"math/rand"
+	"regexp"
+	"strconv"
 	"strings"
 )
 
@@ -17,16 +21,18 @@ type c18Vec struct {
 	Fmt     []string            `json:"fmt"`
 	Args    []string            `json:"args"`
 	Cls     string              `json:"cls"`
-	Outs    [][]json.RawMessage `json:"outs"` // per policy 0..7: runs [byte, n]; [0] = same as policy 0
+	Outs    [][]json.RawMessage `json:"outs"` // per policy 0..3: runs [byte, n]; [0] = same as policy 0
+	Rend    []string            `json:"rend"` // family 6: the model's rendering of the number
 	Why     string              `json:"why"`
 	Surplus bool                `json:"-"` // set by the harness: arguments beyond those the scanner looked at
 }
 
 // c18Inst is the seeded instantiation of the model's opaque symbols.
 type c18Inst struct {
-	sym    map[string][]byte // output symbol -> bytes
-	fmtSrc map[string]string // format byte -> source text inside a "..." literal
-	argSrc map[string]string // argument name -> source expression
+	sym     map[string][]byte // output symbol -> bytes
+	fmtSrc  map[string]string // format byte -> source text inside a "..." literal
+	argSrc  map[string]string // argument name -> source expression
+	argJSON map[string]string // argument name -> JSON text (the kinds JSON has)
 }
 
 type c18Atom struct {
@@ -71,7 +77,7 @@ func c18RandNum6(rng *rand.Rand) string {
 	}
 }
 
-func c18NewInst(seed int64, key string) *c18Inst {
+func c18NewInst(seed int64, key string, plain bool) *c18Inst {
 	h := fnv.New64a()
 	fmt.Fprintf(h, "%d|%s", seed, key)
 	rng := rand.New(rand.NewSource(int64(h.Sum64())))
@@ -79,6 +85,10 @@ func c18NewInst(seed int64, key string) *c18Inst {
 	in := &c18Inst{sym: map[string][]byte{}, fmtSrc: map[string]string{}, argSrc: map[string]string{}}
 	x := atoms[rng.Intn(len(atoms))]
 	d := atoms[rng.Intn(len(atoms))]
+	if plain {
+		// families 5 and 6: renderings such as <regex> contain the model's literal byte itself
+		x, d = c18Atom{"x", []byte("x")}, c18Atom{"d", []byte("d")}
+	}
 	in.fmtSrc["x"], in.sym["x"] = x.src, x.b
 	in.fmtSrc["d"], in.sym["d"] = d.src, d.b
 	short := c18RandStr(rng, 2)
@@ -87,6 +97,9 @@ func c18NewInst(seed int64, key string) *c18Inst {
 	n6 := c18RandNum6(rng)
 	in.argSrc["S"], in.argSrc["L"], in.argSrc["N"], in.argSrc["M"] = "'"+short+"'", "'"+long+"'", n1, n6
 	in.argSrc["null"], in.argSrc["[1]"] = "null", "[1]"
+	in.argSrc["true"], in.argSrc["obj"] = "true", "{a: 1}"
+	in.argSrc["regex"] = []string{"/ab+/", "/x/", "/^k.*$/", "/[0-9]/"}[rng.Intn(4)]
+	in.argJSON = map[string]string{"S": strconv.Quote(short), "N": n1, "null": "null", "[1]": "[1]", "true": "true", "obj": `{"a": 1}`}
 	for i := 0; i < 2; i++ {
 		in.sym["s"+string(rune('a'+i))] = []byte{short[i]}
 	}
@@ -98,26 +111,275 @@ func c18NewInst(seed int64, key string) *c18Inst {
 	return in
 }
 
-func (in *c18Inst) program(v *c18Vec) []byte {
-	var sb strings.Builder
-	sb.WriteString(`BEGIN { print "before"; printf("`)
+// program renders a call of the model: the program and, where an argument comes from the
+// input document, the document.  An argument is named name or name@via: via says how the value
+// reaches the argument list (MC_Printf.ViasOf, Vias6).
+func (in *c18Inst) program(v *c18Vec) ([]byte, []FileIn) {
+	var setup, call strings.Builder
+	var doc []string
+	useDoc := false
+	call.WriteString(`printf("`)
 	for _, b := range v.Fmt {
 		if s, ok := in.fmtSrc[b]; ok {
-			sb.WriteString(s)
+			call.WriteString(s)
 		} else {
-			sb.WriteString(b)
+			call.WriteString(b)
 		}
 	}
-	sb.WriteString(`"`)
-	for _, a := range v.Args {
-		src, ok := in.argSrc[a]
-		if !ok {
+	call.WriteString(`"`)
+	for i, a := range v.Args {
+		name, via := a, "lit"
+		if k := strings.LastIndexByte(a, '@'); k >= 0 {
+			name, via = a[:k], a[k+1:]
+		}
+		src, okSrc := in.argSrc[name]
+		js, okJS := in.argJSON[name]
+		if num := c18ParseNum(name); num != nil {
+			src, okSrc, js, okJS = num.literal(), true, num.exactText(), true
+			switch via {
+			case "jsonexp":
+				js, via = num.expText(), "json"
+			case "arith":
+				src, via = num.arith(), "lit"
+			}
+		}
+		switch name {
+		case "unset":
+			src, okSrc = fmt.Sprintf("u%d", i), via == "var" // a name that is never assigned
+			via = "lit"
+		case "fn":
+			src, okSrc, via = "fn", via == "var", "lit"
+		case "native":
+			src, okSrc, via = "num", via == "var", "lit"
+		}
+		if !okSrc {
 			infra("C18: unknown argument name %q", a)
 		}
-		sb.WriteString(", " + src)
+		var e string
+		switch via {
+		case "lit":
+			e = src
+		case "var":
+			fmt.Fprintf(&setup, "v%d = %s; ", i, src)
+			e = fmt.Sprintf("v%d", i)
+		case "elem":
+			fmt.Fprintf(&setup, "a%d = [0, %s]; ", i, src)
+			e = fmt.Sprintf("a%d[1]", i)
+		case "memb":
+			fmt.Fprintf(&setup, "o%d = {k: %s}; ", i, src)
+			e = fmt.Sprintf("o%d.k", i)
+		case "call":
+			e = "id(" + src + ")"
+		case "json":
+			if !okJS {
+				infra("C18: argument %q has no JSON form", a)
+			}
+			doc = append(doc, fmt.Sprintf(`"k%d": %s`, i, js))
+			e = fmt.Sprintf("$.k%d", i)
+			useDoc = true
+		case "noelem":
+			fmt.Fprintf(&setup, "a%d = [0]; ", i)
+			e = fmt.Sprintf("a%d[3]", i)
+		case "nomemb":
+			fmt.Fprintf(&setup, "o%d = {k: 0}; ", i)
+			e = fmt.Sprintf("o%d.zz", i)
+		case "nojson":
+			e = fmt.Sprintf("$.zz%d", i)
+			useDoc = true
+		default:
+			infra("C18: unknown argument source %q", a)
+		}
+		call.WriteString(", " + e)
 	}
-	sb.WriteString(") }")
-	return []byte(sb.String())
+	call.WriteString(")")
+	if v.Fam < 5 {
+		return []byte(`BEGIN { print "before"; ` + call.String() + " }"), nil
+	}
+	head := "function id(x) { return x }\nfunction fn() { return 1 }\n"
+	if !useDoc {
+		return []byte(head + "BEGIN { " + setup.String() + `print "before"; ` + call.String() + " }"), nil
+	}
+	return []byte(head + "{ " + setup.String() + `print "before"; ` + call.String() + " }"),
+		[]FileIn{{Name: "in.json", Data: []byte("{" + strings.Join(doc, ", ") + "}\n")}}
+}
+
+// A number of family 6: n * 2^e (|n| < 2^31), or negative zero.
+type c18Num struct {
+	n   int64
+	e   int
+	neg bool // the sign bit (also of zero)
+}
+
+var c18NumRe = regexp.MustCompile(`^n(-?[0-9]+)e(-?[0-9]+)(z?)$`)
+
+func c18ParseNum(name string) *c18Num {
+	m := c18NumRe.FindStringSubmatch(name)
+	if m == nil {
+		return nil
+	}
+	n, _ := strconv.ParseInt(m[1], 10, 64)
+	e, _ := strconv.Atoi(m[2])
+	return &c18Num{n: n, e: e, neg: n < 0 || m[3] == "z"}
+}
+
+func c18Pow2(e int) *big.Rat {
+	p := new(big.Rat).SetInt(new(big.Int).Lsh(big.NewInt(1), uint(c18Abs(e))))
+	if e < 0 {
+		p.Inv(p)
+	}
+	return p
+}
+
+func c18Abs(i int) int {
+	if i < 0 {
+		return -i
+	}
+	return i
+}
+
+// |x| * 2^shift, exactly
+func (x *c18Num) abs(shift int) *big.Rat {
+	n := x.n
+	if n < 0 {
+		n = -n
+	}
+	return new(big.Rat).Mul(new(big.Rat).SetInt64(n), c18Pow2(x.e+shift))
+}
+
+// exact positional decimal of a dyadic rational
+func c18Exact(r *big.Rat) string {
+	k := 0
+	for d := new(big.Int).Set(r.Denom()); d.BitLen() > 1; d.Rsh(d, 1) {
+		k++
+	}
+	return r.FloatString(k)
+}
+
+func (x *c18Num) sign() string {
+	if x.neg {
+		return "-"
+	}
+	return ""
+}
+func (x *c18Num) exactText() string { return x.sign() + c18Exact(x.abs(0)) }
+func (x *c18Num) literal() string   { return x.exactText() }
+
+// the same value spelled with an exponent (JSON input)
+func (x *c18Num) expText() string {
+	t := c18Exact(x.abs(0))
+	ip, fp, _ := strings.Cut(t, ".")
+	digits := strings.TrimLeft(ip+fp, "0")
+	if digits == "" {
+		return x.sign() + "0.0e0"
+	}
+	exp := len(ip) - 1
+	if ip == "0" {
+		exp = -(len(fp) - len(strings.TrimLeft(fp, "0")) + 1)
+	}
+	digits = strings.TrimRight(digits, "0")
+	if len(digits) == 1 {
+		return fmt.Sprintf("%s%sE%d", x.sign(), digits, exp)
+	}
+	return fmt.Sprintf("%s%s.%se%+d", x.sign(), digits[:1], digits[1:], exp)
+}
+
+// the same value as the result of an exact computation
+func (x *c18Num) arith() string {
+	switch {
+	case x.n == 0 && x.neg:
+		return "(0 * -1)"
+	case x.n == 0:
+		return "(1 - 1)"
+	}
+	h := c18Exact(x.abs(-1))
+	if x.neg {
+		return "(0 - " + h + " - " + h + ")"
+	}
+	return "(" + h + " + " + h + ")"
+}
+
+var c18PosRe = regexp.MustCompile(`^-?(0|[1-9][0-9]*)(\.[0-9]*[1-9])?$`)
+
+// c18ProveShortest shows with exact arithmetic that text is the print form of x: a positional
+// decimal carrying the sign bit, that reads back as the double x, with the fewest significant
+// digits any such decimal can have, and the closest to x among those.  "" = proved.
+func c18ProveShortest(x *c18Num, text string) string {
+	if !c18PosRe.MatchString(text) {
+		return "not a plain positional decimal"
+	}
+	if strings.HasPrefix(text, "-") != x.neg {
+		return "sign"
+	}
+	if x.n == 0 {
+		if strings.TrimPrefix(text, "-") != "0" {
+			return "zero is written 0"
+		}
+		return ""
+	}
+	c, ok := new(big.Rat).SetString(strings.TrimPrefix(text, "-"))
+	if !ok {
+		return "unreadable"
+	}
+	ax := x.abs(0)
+	// the doubles that round to x: x = m * 2^q with 2^52 <= m < 2^53; m is even here (|n| < 2^31), so ties count
+	n := x.n
+	if n < 0 {
+		n = -n
+	}
+	bl := big.NewInt(n).BitLen()
+	q := x.e - (53 - bl)
+	if q < -1074 || q > 971 {
+		return "outside the normal doubles"
+	}
+	hi := new(big.Rat).Add(ax, c18Pow2(q-1))
+	lo := new(big.Rat).Sub(ax, c18Pow2(q-1))
+	if n&(n-1) == 0 { // a power of two: the doubles below are twice as dense
+		lo = new(big.Rat).Sub(ax, c18Pow2(q-2))
+	}
+	within := func(r *big.Rat) bool { return r.Cmp(lo) >= 0 && r.Cmp(hi) <= 0 }
+	if !within(c) {
+		return "does not read back as the same double"
+	}
+	// 10^E <= |x| < 10^(E+1)
+	pow10 := func(p int) *big.Rat {
+		r := new(big.Rat).SetInt(new(big.Int).Exp(big.NewInt(10), big.NewInt(int64(c18Abs(p))), nil))
+		if p < 0 {
+			r.Inv(r)
+		}
+		return r
+	}
+	f, _ := ax.Float64()
+	E := int(math.Floor(math.Log10(f)))
+	for pow10(E).Cmp(ax) > 0 {
+		E--
+	}
+	for pow10(E+1).Cmp(ax) <= 0 {
+		E++
+	}
+	digits := strings.TrimLeft(strings.Replace(strings.TrimPrefix(text, "-"), ".", "", 1), "0")
+	k := len(strings.TrimRight(digits, "0"))
+	if k > 17 {
+		return "more than 17 significant digits"
+	}
+	// closest k-digit decimal: |c - x| <= half a unit of the k-th digit
+	unit := pow10(E - k + 1)
+	diff := new(big.Rat).Sub(c, ax)
+	diff.Abs(diff)
+	if diff.Mul(diff, big.NewRat(2, 1)).Cmp(unit) > 0 {
+		return "not the closest decimal of its length"
+	}
+	// no decimal with k-1 significant digits reads back as x
+	if k > 1 {
+		u := pow10(E - k + 2)
+		fl := new(big.Rat).Quo(ax, u)
+		down := new(big.Rat).SetInt(new(big.Int).Quo(fl.Num(), fl.Denom()))
+		down.Mul(down, u)
+		up := new(big.Rat).Add(down, u)
+		if within(down) || within(up) {
+			return "a shorter decimal reads back as the same double"
+		}
+	}
+	return ""
 }
 
 // expand turns the model's runs into bytes; nil, false for the "same as policy 0" marker.
@@ -168,31 +430,38 @@ const c18Before = "before\n"
 // for a failing call, the outcome is a runtime error with stdout exactly
 // "before\n".
 func checkC18(c *Ctx) {
-	c.Assume("whether a width applies to %v and to %%, and whether the zero flag applies with a negative width, is not fixed by the statement: each of the 8 readings is accepted, but ONE reading must explain all outputs of the run")
+	c.Assume("whether a width applies to %v and to %% is not fixed by the statement: each of the 4 readings is accepted, but ONE reading must explain all outputs of the run; the fill byte is fixed: zeros only for a width whose text starts with 0, so padding on the right (a width starting with '-') is always blanks")
 	c.Assume("surplus arguments: ignoring them and refusing them (runtime error, nothing written) are both accepted")
-	c.Assume("the rendering of a number for %f/%v is its print format (no fixed decimals) and of a top-level string for %s/%v its raw bytes; numbers are restricted to those whose canonical rendering is their source text (number rendering itself is C17's)")
+	c.Assume("the rendering of a number for %f/%v is its print format (no fixed decimals: the shortest positional decimal that reads back as the same double, JqValue.NumText) and of a top-level string for %s/%v its raw bytes; in families 1-5 numbers are those whose rendering is their source text, family 6 takes numbers n * 2^e of every rendering class, each rendering proved shortest by the harness with exact arithmetic")
+	c.Assume("for %v a regex renders as <regex> and a never-assigned name as <unknown> (print's format); a function handed to printf is not compared for %v (the language refuses to pass functions as arguments at all), for %s and %f it must be a runtime error")
+	c.Assume("family 6 relies on a decimal literal / JSON number being read as the nearest double (C13's, the decoder's) and on x/2 + x/2, 0 - h - h, 0 * -1, 1 - 1 being exact (C05's)")
 	c.Assume("error messages are not compared, only the kind (runtime) and that the failing printf wrote nothing")
 	c.Assume("format bytes are drawn from {% s f v d - 0 5 x}: 'x' and 'd' stand for any literal byte / any non-directive letter and are instantiated per seed (ASCII, escapes, multi-byte characters); string and number contents are instantiated per seed with the lengths of the model (2 and 6 bytes, 1 and 6 bytes)")
 	c.Assume("precision, '+', ' ' and '#' flags, '*' widths and positional arguments are not part of the documented printf and are outside the model (all are 'unknown directive' errors today)")
 	pool := c.Pool()
 
-	polMask := 0xFF // readings of the statement still consistent with every output seen
+	polMask := 0x0F // readings of the statement still consistent with every output seen
 	polReported := false
 	var nOK, nErr, nSurplusErr, nMulti, nSkip, nVec int
 	whyCount := map[string]int{}
 	perFam := map[int]int{}
 	lateErr := map[string]int{} // family 4: errors raised after >= 4096 bytes were rendered
+	nontrivialKinds := map[string]int{}
+	numProved := map[string]string{} // family 6: number -> rendering proved to be its print form
 	nSample := 0
 
 	type batch struct {
 		vecs  []c18Vec
 		insts []*c18Inst
 	}
-	judge := func(v *c18Vec, in *c18Inst, prog []byte, r Result) {
+	judge := func(v *c18Vec, in *c18Inst, prog []byte, files []FileIn, r Result) {
 		rep := func(extra map[string]any) map[string]any {
 			m := map[string]any{"program": string(prog), "program_bytes": prog, "model_fmt": v.Fmt, "model_args": v.Args,
 				"expected_class": v.Cls, "model_error": v.Why, "got_class": r.Class, "got_stdout": string(r.Stdout),
 				"got_stdout_bytes": r.Stdout, "got_msg": r.ErrMsg, "detail": r.Detail}
+			if len(files) > 0 {
+				m["input_document"] = string(files[0].Data)
+			}
 			for k, x := range extra {
 				m[k] = x
 			}
@@ -208,6 +477,12 @@ func checkC18(c *Ctx) {
 			hasDir = hasDir || b == "%"
 		}
 		key := string(prog)
+		if len(files) > 0 {
+			key += "\x00" + string(files[0].Data)
+		}
+		if v.Fam >= 5 && len(v.Args) > 0 {
+			nontrivialKinds[v.Args[len(v.Args)-1]]++
+		}
 		if v.Cls == "runtime" {
 			if r.Class != "runtime" {
 				c.Violation("printf-error-expected", rep(nil))
@@ -247,7 +522,7 @@ func checkC18(c *Ctx) {
 		base, _ := in.expand(v.Outs[0])
 		matched := 0
 		distinct := 1
-		for k := 0; k < 8; k++ {
+		for k := 0; k < 4; k++ {
 			exp, own := in.expand(v.Outs[k])
 			if !own {
 				exp = base
@@ -269,7 +544,7 @@ func checkC18(c *Ctx) {
 		polMask &= matched
 		if polMask == 0 && !polReported {
 			polReported = true
-			c.Violation("printf-no-uniform-reading", rep(map[string]any{"why": "no single reading of the open points (width on %v, width on %%, zero flag with negative width) explains this output together with the earlier ones"}))
+			c.Violation("printf-no-uniform-reading", rep(map[string]any{"why": "no single reading of the open points (width on %v, width on %%) explains this output together with the earlier ones"}))
 			return
 		}
 		nOK++
@@ -294,7 +569,7 @@ func checkC18(c *Ctx) {
 					c.Violation("printf-crash", map[string]any{"program": string(j.Hist[i].Prog), "result": r1})
 					continue
 				}
-				judge(&b.vecs[i], b.insts[i], j.Hist[i].Prog, r1)
+				judge(&b.vecs[i], b.insts[i], j.Hist[i].Prog, j.Hist[i].Files, r1)
 			}
 			return
 		}
@@ -303,7 +578,7 @@ func checkC18(c *Ctx) {
 				c.Violation("printf-crash", map[string]any{"program": string(j.Hist[i].Prog), "result": r.Hist[i]})
 				continue
 			}
-			judge(&b.vecs[i], b.insts[i], j.Hist[i].Prog, r.Hist[i])
+			judge(&b.vecs[i], b.insts[i], j.Hist[i].Prog, j.Hist[i].Files, r.Hist[i])
 		}
 	})
 	const batchSize = 64
@@ -338,13 +613,14 @@ func checkC18(c *Ctx) {
 		}
 	}
 	add := func(v c18Vec) {
-		in := c18NewInst(c.Seed, strings.Join(v.Fmt, "")+"|"+strings.Join(v.Args, ","))
+		in := c18NewInst(c.Seed, strings.Join(v.Fmt, "")+"|"+strings.Join(v.Args, ","), v.Fam >= 5)
 		if cur == nil {
 			cur = &batch{}
 		}
 		cur.vecs = append(cur.vecs, v)
 		cur.insts = append(cur.insts, in)
-		curJob.Hist = append(curJob.Hist, Job{Kind: "run", Prog: in.program(&v)})
+		prog, files := in.program(&v)
+		curJob.Hist = append(curJob.Hist, Job{Kind: "run", Prog: prog, Files: files})
 		if len(cur.vecs) >= batchSize {
 			flush()
 		}
@@ -352,10 +628,28 @@ func checkC18(c *Ctx) {
 	onVec := func(raw []byte) {
 		var v c18Vec
 		VecDecode(raw, &v)
-		if len(v.Outs) != 8 || v.Fam <= 2 && len(v.Args) > 2 {
+		if len(v.Outs) != 4 || v.Fam <= 2 && len(v.Args) > 2 || v.Fam == 6 && len(v.Args) != 1 {
 			infra("C18: malformed vector: %.200s", raw)
 		}
 		nVec++
+		if v.Fam == 6 {
+			// the model's rendering of this number is a leaf fact of the spec (exact expansion, or a row of
+			// PfLong): prove it, once per number
+			name := v.Args[0][:strings.LastIndexByte(v.Args[0], '@')]
+			rend := strings.Join(v.Rend, "")
+			if old, ok := numProved[name]; !ok {
+				x := c18ParseNum(name)
+				if x == nil {
+					infra("C18: bad number name %q", name)
+				}
+				if why := c18ProveShortest(x, rend); why != "" {
+					infra("C18: the spec renders %s (%s) as %q: %s", name, x.exactText(), rend, why)
+				}
+				numProved[name] = rend
+			} else if old != rend {
+				infra("C18: two renderings of %s: %q and %q", name, old, rend)
+			}
+		}
 		// the model's args are the arguments the scanner looked at; the call may carry more
 		// (never examined), except where the model says the list was exhausted
 		free := 2 - len(v.Args)
@@ -391,6 +685,10 @@ func checkC18(c *Ctx) {
 	c.TLC(TLCOpt{Module: "MC_Printf", Cfg: cfg(0, 4, 4), OnVec: onVec, Workers: 8, Heap: "6g"})
 	// family 3: 2 and 3 directives with widths, literals between them
 	c.TLC(TLCOpt{Module: "MC_Printf", Cfg: cfg(0, 3, 3), OnVec: onVec, Workers: 8, Heap: "6g"})
+	// family 5: every kind of value, reached in every way, against every directive
+	c.TLC(TLCOpt{Module: "MC_Printf", Cfg: cfg(0, 3, 5), OnVec: onVec, Workers: 8, Heap: "6g"})
+	// family 6: numbers of every rendering class, widths around the length of the rendering
+	c.TLC(TLCOpt{Module: "MC_Printf", Cfg: cfg(0, 3, 6), OnVec: onVec, Workers: 8, Heap: "6g"})
 	flush()
 	st.Wait()
 	n2 := nOK + nErr + nSurplusErr
@@ -400,9 +698,9 @@ func checkC18(c *Ctx) {
 	st.Wait()
 
 	pols := []string{}
-	for k := 0; k < 8; k++ {
+	for k := 0; k < 4; k++ {
 		if polMask&(1<<k) != 0 {
-			pols = append(pols, fmt.Sprintf("{width on %%v: %v, width on %%%%: %v, zero flag with negative width: %v}", k&1 != 0, k&2 != 0, k&4 != 0))
+			pols = append(pols, fmt.Sprintf("{width on %%v: %v, width on %%%%: %v}", k&1 != 0, k&2 != 0))
 		}
 	}
 	c.Set("exhaustive", true)
@@ -410,14 +708,18 @@ func checkC18(c *Ctx) {
 		"{2-byte string, 6-byte string, 1-byte number, 6-byte number, null, [1]}, plus single directives with widths {1,2,9,10,11,4096,65536,65537,2^32+1,2^64+1} "+
 		"of either sign, with/without leading zero, with/without surrounding literals (family 2); formats of 2 and 3 directives, each with a width from {none, 3, 03, -3, -03, 12} and a letter from {s, f, v, %}, "+
 		"literals between them, arguments of the wanted kind short and long (3 directives: short only in quick) (family 3); one to three large fields (2000..65536 bytes, together >= 4096) followed by the end of the format or by each error kind "+
-		"(missing argument, wrong kind, unknown directive, dangling %, dangling width, width beyond the maximum) (family 4); one real run per finished call; non-trivial = the format contains a '%'; distinct by program text")
-	c.Set("checker_cmd", "tlc MC_Printf (Families 2, 4, 3, then Family 1); replay through lang.EvalProgram in worker subprocesses (batches of 64 runs)")
+		"(missing argument, wrong kind, unknown directive, dangling %, dangling width, width beyond the maximum) (family 4); one directive (first, or after a %s that succeeds) with a width from {none, 4, -4, 04, 12} and a letter from {s, f, v} x every kind of value "+
+		"(string, number, null, bool, array, object, regex, never-assigned name, user function, built-in function) x every way it reaches the argument list (literal, variable, array element, object member, call result, input document; null also as a missing element / member / document field) (family 5); "+
+		"one directive f / v / s x numbers n*2^e (both zeros, whole numbers below and above 2^53 and 2^63, fractions, renderings longer than 17 digits) x widths {none, L-1, L, L+1, L+3} for L = the length of that number's rendering, plain / negative / zero-led (thorough: also -0) x the number written as literal, JSON input, exact computation (thorough: also variable, JSON with exponent) (family 6); one real run per finished call; non-trivial = the format contains a '%'; distinct by program text")
+	c.Set("checker_cmd", "tlc MC_Printf (Families 2, 4, 3, 5, 6, then Family 1); replay through lang.EvalProgram in worker subprocesses (batches of 64 runs)")
 	c.Set("bounds", map[string]int{"MaxLen": maxLen, "MaxArgs": 2, "family2_MaxArgs": f2args})
 	c.Set("model_behaviours", nVec)
 	c.Set("calls_ok", nOK)
 	c.Set("calls_runtime_error", nErr)
 	c.Set("calls_error_by_cause", whyCount)
-	c.Set("calls_families_2_3_4", n2)
+	c.Set("calls_families_2_to_6", n2)
+	c.Set("family5_6_distinct_arguments", len(nontrivialKinds))
+	c.Set("family6_number_renderings_proved_shortest", len(numProved))
 	c.Set("calls_per_family", perFam)
 	c.Set("family4_errors_after_large_output_by_cause", lateErr)
 	c.Set("surplus_arguments_refused", nSurplusErr)
